@@ -145,7 +145,15 @@ fn step<Tx: ExecutableTransaction>(vm: &mut Vm<Tx>, raw: u32, b: u64) -> Result<
     out
 }
 
-fn queries<Tx: ExecutableTransaction>(ctx: &mut Ctx, vm: &mut Vm<Tx>, kind: usize, ctxname: &str, setup: &str, thorough_idx: bool) {
+/// the indices asked for a selector: `InputContractOutputIndex` reads a VM-side table (not the transaction bytes), so it is asked for
+/// every small index and for every key an EARLIER transaction on the same VM put into that table
+fn idx_plan(sel: GTFArgs, base: &[u64], extra: &[u64]) -> Vec<u64> {
+    let mut v = base.to_vec();
+    if matches!(sel, GTFArgs::InputContractOutputIndex) { v.extend(0..34u64); v.extend_from_slice(extra); v.sort(); v.dedup(); }
+    v
+}
+
+fn queries<Tx: ExecutableTransaction>(ctx: &mut Ctx, vm: &mut Vm<Tx>, kind: usize, ctxname: &str, setup: &str, thorough_idx: bool, extra: &[u64]) {
     let tx = vm.transaction().clone();
     let map: std::collections::BTreeMap<u16, u16> = tx.outputs().iter().enumerate()
         .filter_map(|(j, o)| match o { Output::Contract(c) => Some((c.input_index, j as u16)), _ => None }).collect();
@@ -158,7 +166,7 @@ fn queries<Tx: ExecutableTransaction>(ctx: &mut Ctx, vm: &mut Vm<Tx>, kind: usiz
         let imm = sel as u16;
         // selectors that ignore the index are asked once (and once with a huge index)
         let ignores = matches!(expected(&tx, kind, &map, sel, 0), Value(_)) && matches!(expected(&tx, kind, &map, sel, 12345), Value(_)) && !matches!(sel, GTFArgs::InputContractOutputIndex);
-        for &b in idxs.iter() {
+        for b in idx_plan(sel, &idxs, extra) {
             if ignores && b != 0 && b != u64::MAX { continue; }
             let exp = expected(&tx, kind, &map, sel, b);
             let nbytes = match &exp { Bytes(x) => x.len(), _ => 0 };
@@ -194,6 +202,28 @@ fn queries<Tx: ExecutableTransaction>(ctx: &mut Ctx, vm: &mut Vm<Tx>, kind: usiz
         ctx.emit(&format!("gtf {imm} 0 0"), &match &got { Ok(v) => format!("ok {v} -"), Err(r) => format!("panic {r}") });
         if got != Err("InvalidMetadataIdentifier".to_string()) { ctx.oracle_fail(&format!("gtf-unknown-selector-{ctxname}"), &format!("{setup} ;; gtf {imm}"), &format!("got {got:?}")); }
     }
+}
+
+/// every GTF (all selectors x the same index plan) and GM answer of a VM, without emitting: used to compare a REUSED VM with a fresh one
+fn answers<Tx: ExecutableTransaction>(vm: &mut Vm<Tx>, extra: &[u64]) -> Vec<(String, String)> {
+    let tx = vm.transaction().clone();
+    let n = tx.inputs().len().max(tx.outputs().len()).max(tx.witnesses().len()) as u64;
+    let mut idxs: Vec<u64> = (0..=n + 1).collect();
+    idxs.extend_from_slice(&[1 << 16, u64::MAX]);
+    let mut out = vec![];
+    for sel in (0u16..4096).filter_map(|i| GTFArgs::try_from(i).ok()) {
+        for b in idx_plan(sel, &idxs, extra) {
+            let got = step(vm, op::gtf(RA, RB, sel as u16).into(), b);
+            // a returned value that is an address inside the initialised memory is dereferenced (32 bytes)
+            let ans = match &got { Ok(v) => format!("ok {v} {}", vm.memory().read(*v, 32usize).map(|x| hex(x)).unwrap_or("-".into())), Err(r) => format!("panic {r}") };
+            out.push((format!("gtf {sel:?} {b}"), ans));
+        }
+    }
+    for sel in (0u32..64).filter_map(|i| GMArgs::try_from(i).ok()) {
+        let got = step(vm, op::gm(RA, sel as u32).into(), 0);
+        out.push((format!("gm {sel:?}"), match &got { Ok(v) => format!("ok {v}"), Err(r) => format!("panic {r}") }));
+    }
+    out
 }
 
 struct Setup { max_inputs: u16, chain: u64, gas_price: u64, base: AssetId }
@@ -254,7 +284,7 @@ fn setup_line<Tx: ExecutableTransaction + ToVal>(ctxname: &str, pred: Option<usi
     format!("vm {ctxname} {} {} {} {} {} {} {balances} {}", pred.map(|x| x.to_string()).unwrap_or("-".into()), TX_NAMES[kind], s.max_inputs, s.chain, s.gas_price, hex(&*s.base), tx.vt())
 }
 
-fn after_init<Tx: ExecutableTransaction + ToVal>(ctx: &mut Ctx, vm: &mut Vm<Tx>, init_ok: bool, orig: &Tx, kind: usize, s: &Setup, pred: Option<usize>, ctxname: &str) {
+fn after_init<Tx: ExecutableTransaction + ToVal>(ctx: &mut Ctx, vm: &mut Vm<Tx>, init_ok: bool, orig: &Tx, kind: usize, s: &Setup, pred: Option<usize>, ctxname: &str, extra: &[u64]) {
     if !init_ok { let setup = setup_line(ctxname, pred, kind, s, "-", orig); ctx.emit(&setup, "err"); ctx.count("init.err"); return; }
     let end = vm.tx_offset() + vm.transaction().size();
     let mem = vm.memory().read(0usize, end).map(|x| x.to_vec()).unwrap_or_default();
@@ -271,7 +301,7 @@ fn after_init<Tx: ExecutableTransaction + ToVal>(ctx: &mut Ctx, vm: &mut Vm<Tx>,
         ctx.oracle_fail(&format!("init-memory-layout-{ctxname}"), &setup, "id / base asset / size word / transaction bytes are not where specified");
     }
     let thorough = ctx.thorough();
-    queries(ctx, vm, kind, ctxname, &setup, thorough);
+    queries(ctx, vm, kind, ctxname, &setup, thorough, extra);
     gm_queries(ctx, vm, s, pred, ctxname, &setup);
 }
 
@@ -283,7 +313,7 @@ fn run_script(ctx: &mut Ctx, tx: fuel_tx::Script, s: &Setup) {
     let mut checked: Checked<fuel_tx::Script> = dummy.into_checked_basic(Default::default(), &ConsensusParameters::standard()).expect("dummy script");
     *checked.as_mut() = tx.clone();
     let ok = std::panic::catch_unwind(std::panic::AssertUnwindSafe(|| vm.init_script(checked.test_into_ready()).is_ok())).unwrap_or(false);
-    after_init(ctx, &mut vm, ok, &tx, 0, s, None, "script");
+    after_init(ctx, &mut vm, ok, &tx, 0, s, None, "script", &[]);
 }
 
 fn run_predicate<Tx: ExecutableTransaction + ToVal>(ctx: &mut Ctx, tx: Tx, kind: usize, s: &Setup, idx: usize) {
@@ -292,7 +322,59 @@ fn run_predicate<Tx: ExecutableTransaction + ToVal>(ctx: &mut Ctx, tx: Tx, kind:
     let Some(program) = RuntimePredicate::from_tx(&tx, p.tx_params().tx_offset(), idx) else { ctx.count("predicate.none"); return; };
     let context = if ctx.rng.chance(1, 2) { Context::PredicateVerification { program } } else { Context::PredicateEstimation { program } };
     let ok = std::panic::catch_unwind(std::panic::AssertUnwindSafe(|| vm.init_predicate(context, tx.clone(), 1_000_000).is_ok())).unwrap_or(false);
-    after_init(ctx, &mut vm, ok, &tx, kind, s, Some(idx), "predicate");
+    after_init(ctx, &mut vm, ok, &tx, kind, s, Some(idx), "predicate", &[]);
+}
+
+fn init_on<Tx: ExecutableTransaction>(vm: &mut Vm<Tx>, tx: &Tx, p: &ConsensusParameters, pred: Option<(usize, bool)>, script_checked: Option<Checked<Tx>>) -> bool
+where Tx: fuel_vm::checked_transaction::IntoChecked, <Tx as fuel_vm::checked_transaction::IntoChecked>::Metadata: fuel_vm::interpreter::CheckedMetadata {
+    match pred {
+        Some((idx, verify)) => {
+            let Some(program) = RuntimePredicate::from_tx(tx, p.tx_params().tx_offset(), idx) else { return false; };
+            let context = if verify { Context::PredicateVerification { program } } else { Context::PredicateEstimation { program } };
+            std::panic::catch_unwind(std::panic::AssertUnwindSafe(|| vm.init_predicate(context, tx.clone(), 1_000_000).is_ok())).unwrap_or(false)
+        }
+        None => {
+            let Some(mut checked) = script_checked else { return false; };
+            *checked.as_mut() = tx.clone();
+            std::panic::catch_unwind(std::panic::AssertUnwindSafe(|| vm.init_script(checked.test_into_ready()).is_ok())).unwrap_or(false)
+        }
+    }
+}
+
+fn dummy_checked() -> Checked<fuel_tx::Script> {
+    let dummy = fuel_tx::TransactionBuilder::script(vec![], vec![]).max_fee_limit(1000).add_fee_input().finalize();
+    dummy.into_checked_basic(Default::default(), &ConsensusParameters::standard()).expect("dummy script")
+}
+
+fn contract_keys<T: Outputs>(t: &T) -> Vec<u64> { t.outputs().iter().filter_map(|o| o.input_index().map(|x| x as u64)).collect() }
+
+/// several transactions IN SEQUENCE on ONE interpreter (`init_inner` must replace every VM-side table: owner pointer, the
+/// contract-input -> output index map, memory): each later transaction is queried like any other (model and meaning-table oracle see
+/// a fresh VM), with the keys of all earlier transactions added to the index plan, and all answers are compared with a fresh VM's
+fn run_sequence<Tx: ExecutableTransaction + ToVal>(ctx: &mut Ctx, txs: Vec<(Tx, Option<(usize, bool)>)>, kind: usize, s: &Setup, mk_checked: &dyn Fn() -> Option<Checked<Tx>>)
+where Tx: fuel_vm::checked_transaction::IntoChecked, <Tx as fuel_vm::checked_transaction::IntoChecked>::Metadata: fuel_vm::interpreter::CheckedMetadata {
+    let p = params(s);
+    let new_vm = || -> Vm<Tx> { Interpreter::with_storage(MemoryInstance::new(), MemoryStorage::default(), InterpreterParams::new(s.gas_price, &p)) };
+    let mut vm = new_vm();
+    let mut earlier: Vec<u64> = vec![];
+    for (n, (tx, pred)) in txs.iter().enumerate() {
+        let ok = init_on(&mut vm, tx, &p, *pred, mk_checked());
+        let ctxname = if pred.is_some() { "predicate" } else { "script" };
+        after_init(ctx, &mut vm, ok, tx, kind, s, pred.map(|x| x.0), ctxname, &earlier);
+        if ok && n > 0 {
+            ctx.count(&format!("reuse.{ctxname}.{}", TX_NAMES[kind]));
+            let mut fresh = new_vm();
+            if init_on(&mut fresh, tx, &p, *pred, mk_checked()) {
+                let (a, b) = (answers(&mut vm, &earlier), answers(&mut fresh, &earlier));
+                if let Some(((req, x), (_, y))) = a.iter().zip(b.iter()).find(|(x, y)| x != y) {
+                    let setup = setup_line(ctxname, pred.map(|x| x.0), kind, s, "-", tx);
+                    let sel = req.split(' ').nth(1).unwrap_or("?");
+                    ctx.oracle_fail(&format!("reused-vm-ne-fresh-vm-{ctxname}-{sel}"), &format!("transaction {} of a sequence on one VM ;; {setup} ;; {req}", n + 1), &format!("reused VM answers {x}, a fresh VM {y}"));
+                }
+            }
+        }
+        earlier.extend(contract_keys(tx));
+    }
 }
 
 fn build(ctx: &mut Ctx, k: usize, pol: Policies, ins: Vec<Input>, outs: Vec<Output>, wits: Vec<Witness>) -> Transaction {
@@ -357,6 +439,52 @@ pub fn run(ctx: &mut Ctx) {
         if which == 3 { pol.set(PolicyType::Owner, Some(1)); }
         let t = build(ctx, 0, pol, ins, vec![], vec![]);
         case(ctx, t);
+    }
+    // sequences on one VM: (a) contract outputs naming inputs 0, 2, 5 and an owner, then (b) a transaction with other inputs and NO
+    // contract output / no common owner, then (c) one contract output naming input 1; script context, then mixed with predicate contexts
+    {
+        let r = &mut ctx.rng;
+        let own: [u8; 32] = b32(r);
+        let a = Transaction::script(1, vec![0x24, 0, 0, 0], vec![], Policies::new(),
+            vec![input_of(r, 2, 0, 0, 0), Input::coin_signed(utxo(r), own.into(), 5, b32(r).into(), txptr(r), 0), input_of(r, 2, 0, 0, 0), input_of(r, 6, 4, 2, 9), input_of(r, 1, 5, 0, 0), input_of(r, 2, 0, 0, 0)],
+            vec![Output::contract(0, b32(r).into(), b32(r).into()), output_of(r, 0), Output::contract(2, b32(r).into(), b32(r).into()), Output::contract(5, b32(r).into(), b32(r).into())], vec![witness(r)]);
+        let b = Transaction::script(2, vec![1, 2, 3], vec![4], policies(r, 3), vec![input_of(r, 1, 9, 1, 0), input_of(r, 0, 0, 0, 0), input_of(r, 4, 3, 3, 0)], vec![output_of(r, 2), output_of(r, 3)], vec![]);
+        let c = Transaction::script(3, vec![], vec![9; 9], Policies::new(), vec![input_of(r, 3, 0, 0, 0), input_of(r, 2, 0, 0, 0)], vec![Output::contract(1, b32(r).into(), b32(r).into())], vec![witness(r), witness(r)]);
+        let s = Setup { max_inputs: 8, chain: 5, gas_price: 7, base: b32(r).into() };
+        let mk = || Some(dummy_checked());
+        run_sequence(ctx, vec![(a.clone(), None), (b.clone(), None), (c.clone(), None), (a.clone(), None)], 0, &s, &mk);
+        run_sequence(ctx, vec![(a.clone(), Some((3, true))), (b.clone(), None), (a.clone(), None), (b.clone(), Some((2, false))), (c, None)], 0, &s, &mk);
+    }
+    // random sequences of 3 transactions of one kind on one VM (script contexts for Script, predicate contexts for every kind)
+    for _ in 0..ctx.n(6, 400) {
+        let k = *ctx.rng.pick(&KINDS);
+        let mut txs = vec![];
+        for _ in 0..3 {
+            let r = &mut ctx.rng;
+            let pol = policies(r, r.0 as u32 & 0b011111);
+            let (mut ins, mut outs, wits) = (vec_of(r, input), vec_of(r, output), vec_of(r, witness));
+            let pk = *r.pick(&[1usize, 4, 6]); ins.push(input_of(r, pk, 3, 2, 5));
+            for _ in 0..r.below(3) { let ii = r.below(8) as u16; outs.push(Output::contract(ii, b32(r).into(), b32(r).into())); }
+            txs.push(build(ctx, k, pol, ins, outs, wits));
+        }
+        let r = &mut ctx.rng;
+        let s = Setup { max_inputs: *r.pick(&[8u16, 16]), chain: r.word(), gas_price: r.word(), base: b32(r).into() };
+        fn pidx<T: Inputs>(t: &T) -> Option<usize> { t.inputs().iter().position(|i| i.predicate_offset().is_some()) }
+        macro_rules! seq { ($variant:ident, $kind:expr, $script:expr) => {{
+            let v: Vec<_> = txs.into_iter().filter_map(|t| match t { Transaction::$variant(x) => Some(x), _ => None }).collect();
+            let mut plan = vec![];
+            for x in v { let p = pidx(&x).map(|i| (i, ctx.rng.chance(1, 2))); let use_script = $script && ctx.rng.chance(1, 2); plan.push((x, if use_script { None } else { p })); }
+            run_sequence(ctx, plan, $kind, &s, &|| None);
+        }}; }
+        match k {
+            0 => {
+                let v: Vec<_> = txs.into_iter().filter_map(|t| match t { Transaction::Script(x) => Some(x), _ => None }).collect();
+                let mut plan = vec![];
+                for x in v { let p = pidx(&x).map(|i| (i, ctx.rng.chance(1, 2))); let use_script = ctx.rng.chance(1, 2); plan.push((x, if use_script { None } else { p })); }
+                run_sequence(ctx, plan, 0, &s, &|| Some(dummy_checked()));
+            }
+            1 => seq!(Create, 1, false), 3 => seq!(Upgrade, 3, false), 4 => seq!(Upload, 4, false), _ => seq!(Blob, 5, false),
+        }
     }
     // 1. random compositions of the five executable kinds
     for _ in 0..ctx.n(40, 4_000) {
